@@ -52,6 +52,11 @@ class AxisTaint:
         self.seen = {}
 
     def is_src(self, t):
+        # kwargs.pop("axis", d) / kwargs.get("axis", d) / kwargs["axis"]: the option read out of the catch-all
+        if t.op == "call" and t.fn.op == "attr" and t.fn.name in ("pop", "get") and t.fn.obj.op == "kwrest" and t.args and t.args[0].op == "const" and t.args[0].value in self.names:
+            return True
+        if t.op == "sub" and t.obj.op == "kwrest" and t.idx.op == "const" and t.idx.value in self.names:
+            return True
         if t.op != "arg":
             return False
         if isinstance(t.index, int) and t.index in self.pos:
@@ -74,6 +79,24 @@ class AxisTaint:
         r = self._of(t, safe)
         self.seen[k] = (t, r)
         return r
+
+    def _is_argument_list(self, t, depth=0):
+        """is t (a view of) the tuple of the primitive's variadic positional arguments?"""
+        while t is not None and t.op == "seq":
+            t = t.value
+        if t is None or depth > 6:
+            return False
+        if t.op == "rest":
+            return True
+        if t.op == "bin" and t.opname in ("Mult", "Add"):
+            return self._is_argument_list(t.l, depth + 1) or self._is_argument_list(t.r, depth + 1)
+        if t.op == "if":
+            return self._is_argument_list(t.then, depth + 1) or self._is_argument_list(t.other, depth + 1)
+        if t.op == "call" and t.fn.op == "ref" and t.fn.ref.qual in ("builtins.tuple", "builtins.list") and len(t.args) == 1:
+            return self._is_argument_list(t.args[0], depth + 1)
+        if t.op == "sub" and t.idx.op == "slice":
+            return self._is_argument_list(t.obj, depth + 1)
+        return False
 
     def key(self, t):
         """identity of an axis value for sanitising: the parameter (and component) it came from"""
@@ -165,7 +188,15 @@ class AxisTaint:
                     v = self.of(ob.then if cpol else ob.other, safe)
                     return AX if v == AX and t.idx.op in ("const", "slice") else None
             v = self.of(t.obj, safe)
-            self.of(t.idx, safe)
+            if v == "ENUM_AX":
+                self.of(t.idx, safe)
+                return AX if (t.idx.op == "const" and t.idx.value == 1) else None
+            iv = self.of(t.idx, safe)
+            if iv == AX and t.idx.op not in ("const", "slice") and self._is_argument_list(t.obj):
+                # the primitive's own variadic arguments (spacings, operands ...) are listed by POSITION in the call,
+                # not by axis number: indexing them with an axis picks the wrong entry (and, for a negative axis,
+                # counts from the end)
+                self.sink("an axis used as an index into the primitive's positional arguments", t)
             if t.idx.op == "const" and isinstance(t.idx.value, int):
                 pr = project(self.ev, t.obj, t.idx.value)
                 if pr is not None:
@@ -289,8 +320,10 @@ class AxisTaint:
                 if vals and vals[0] == AX:
                     self.sink("sorting / argsort of axes", t)
                     return None
-            if q in ("builtins.list", "builtins.tuple", "builtins.reversed", "builtins.set") and vals and vals[0] == AX:
+            if q in ("builtins.list", "builtins.tuple", "builtins.reversed", "builtins.set", "builtins.iter") and vals and vals[0] == AX:
                 return AX
+            if q == "builtins.enumerate" and vals and vals[0] == AX:
+                return "ENUM_AX"  # pairs (position, axis): component 1 is the axis, component 0 a plain position
             if q in ("builtins.max", "builtins.min", "builtins.abs") and AX in vals:
                 self.sink("arithmetic on an axis", t)
                 return None
